@@ -175,6 +175,7 @@ struct Tot {
     paused_closer: u64,
     random: u64,
     pinned: u64,
+    storm: u64,
     keys: std::collections::HashSet<String>,
     samples: Vec<J>,
     bad: Vec<(String, String)>,
@@ -326,6 +327,48 @@ fn trial(front: Front, scenario: u32, psite: u32, occ: u64, with_signal: bool, s
             }
             director::rule_off(site::IT_CLOSE_FLAGGED);
             director::open_gate(1);
+        }
+        4 => {
+            // a storm of the watched signal before, during and after close(): the iterator must still end, after at most a
+            // handful of further items
+            tot.storm += 1;
+            tot.keys.insert(format!("{:?}:storm", front));
+            let stop_storm = Arc::new(AtomicBool::new(false));
+            let ss = stop_storm.clone();
+            let storm = std::thread::spawn(move || {
+                crate::set_thread(7, class::KILLER);
+                let mut n = 0u64;
+                while !ss.load(Ordering::SeqCst) && n < 3_000_000 {
+                    unsafe { libc::kill(libc::getpid(), sig) };
+                    n += 1;
+                    for _ in 0..300 {
+                        std::hint::spin_loop();
+                    }
+                }
+            });
+            for _ in 0..rng.below(40000) {
+                std::hint::spin_loop();
+            }
+            clone_a.close();
+            closer_done.store(true, Ordering::SeqCst);
+            let y0 = obs.yields.load(Ordering::SeqCst);
+            let tw = crate::now_ms();
+            while !obs.done.load(Ordering::SeqCst) {
+                let extra = obs.yields.load(Ordering::SeqCst) - y0;
+                if extra > 2000 {
+                    tot.bad.push((
+                        "iterator-does-not-end-after-close".into(),
+                        format!("{} further items were yielded after close() had returned and the consumer still has not ended (signals keep arriving) [{}]", extra, label),
+                    ));
+                    break;
+                }
+                if crate::now_ms() - tw > 20_000 {
+                    break;
+                }
+                std::thread::yield_now();
+            }
+            stop_storm.store(true, Ordering::SeqCst);
+            let _ = storm.join();
         }
         3 => {
             // the wake-up of close() makes the consumer runnable on the closer's own CPU: the kernel may switch to it
@@ -483,6 +526,12 @@ pub fn main(args: &[String]) -> i32 {
                     break 'all;
                 }
             }
+            for _ in 0..(random_n / 20).max(3) {
+                trial(front, 4, 0, 0, true, sig, &mut rng, &mut tot);
+                if !tot.bad.is_empty() && !crate::has_flag(args, "--keep-going") || tot.inconclusive.is_some() {
+                    break 'all;
+                }
+            }
             for i in 0..random_n {
                 trial(front, 2, 0, 0, i % 2 == 0, sig, &mut rng, &mut tot);
                 if !tot.bad.is_empty() && !crate::has_flag(args, "--keep-going") || tot.inconclusive.is_some() {
@@ -512,6 +561,7 @@ pub fn main(args: &[String]) -> i32 {
         .set("trials_closer_paused", J::u(tot.paused_closer))
         .set("trials_random", J::u(tot.random))
         .set("trials_same_cpu", J::u(tot.pinned))
+        .set("trials_signal_storm", J::u(tot.storm))
         .set("trials_site_not_reached", J::u(tot.site_not_reached))
         .set("poll_signal_calls", J::u(tot.polls))
         .set("poll_pending_results_checked", J::u(tot.pending_results))
